@@ -10,7 +10,9 @@ import (
 	"net"
 	"net/http"
 	"net/textproto"
+	"net/url"
 	"os"
+	"path"
 	"sort"
 	"strconv"
 	"strings"
@@ -370,83 +372,136 @@ func httpReqDriver(a *Args) {
 	defer be.close()
 	md := hx.StartMetadata()
 	defer md.Close()
-	proxy, port, err := hx.StartProxy(hx.Bin("proxy"), []string{"VERIF_TRACE="})
-	if err != nil {
-		res.Bad("proxy: %v", err)
-		return
-	}
-	defer proxy.Kill()
-	agent, err := hx.StartAgent(hx.Bin("agent"), md, fmt.Sprintf("http://127.0.0.1:%d/", port), be.addr(), "agent", nil, []string{"VERIF_TRACE="})
-	if err != nil {
-		res.Bad("agent: %v", err)
-		return
-	}
-	defer agent.Kill()
-	addr := fmt.Sprintf("127.0.0.1:%d", port)
 	hx.Reset("httpreq", "httpreq")
-	one := func(c reqCase, pass string, rng *rand.Rand) {
-		method := c.Method
-		bodyClass := c.Body
-		if method == "GET" || method == "HEAD" || method == "OPTIONS" {
-			bodyClass = "none"
+	// what reaches the backend does not depend on the agent's settings that are neutral for C02
+	// (spec/AgentConfig.tla): the whole case set under the default configuration, every twentieth case under each
+	// of the other configurations chosen for this run
+	cfgs := hx.AgentConfigs()
+	res.Extra["agent_configurations"] = len(cfgs)
+	for ci, cfg := range cfgs {
+		cfgTag := ""
+		if cfg.Name() != "default" {
+			cfgTag = "@" + cfg.Name()
 		}
-		id := fmt.Sprintf("q%d%s", c.N, pass)
-		target := concretePath(c.Path, rng) + concreteQuery(c.Query, rng)
-		host := concreteHost(c.Host)
-		hdrs := append(concreteReqHeader(c.H1, rng, 1), concreteReqHeader(c.H2, rng, 2)...)
-		hdrs = append(hdrs, hpair{"X-Case", id})
-		body, chunked, pieces := concreteReqBody(bodyClass, rng, id)
-		var raw bytes.Buffer
-		fmt.Fprintf(&raw, "%s %s HTTP/1.1\r\nHost: %s\r\n", method, target, host)
-		for _, h := range hdrs {
-			fmt.Fprintf(&raw, "%s: %s\r\n", h[0], h[1])
+		proxy, port, err := hx.StartProxy(hx.Bin("proxy"), []string{"VERIF_TRACE="})
+		if err != nil {
+			res.Bad("proxy: %v", err)
+			return
 		}
-		if chunked {
-			raw.WriteString("Transfer-Encoding: chunked\r\n\r\n")
-			off := 0
-			for _, p := range pieces {
-				fmt.Fprintf(&raw, "%x\r\n", p)
-				raw.Write(body[off : off+p])
-				raw.WriteString("\r\n")
-				off += p
+		agent, err := hx.StartAgentCfg(hx.Bin("agent"), md, fmt.Sprintf("http://127.0.0.1:%d/", port), be.addr(), "agent", cfg, nil, []string{"VERIF_TRACE="})
+		if err != nil {
+			proxy.Kill()
+			res.Bad("agent: %v", err)
+			return
+		}
+		addr := fmt.Sprintf("127.0.0.1:%d", port)
+		one := func(c reqCase, pass string, rng *rand.Rand) {
+			method := c.Method
+			bodyClass := c.Body
+			if method == "GET" || method == "HEAD" || method == "OPTIONS" {
+				bodyClass = "none"
 			}
-			raw.WriteString("0\r\n\r\n")
-		} else if bodyClass != "none" {
-			fmt.Fprintf(&raw, "Content-Length: %d\r\n\r\n", len(body))
-			raw.Write(body)
-		} else {
-			raw.WriteString("\r\n")
+			id := fmt.Sprintf("q%d%s", c.N, pass)
+			if cfgTag != "" {
+				id = fmt.Sprintf("q%d%sk%d", c.N, pass, ci)
+			}
+			target := concretePath(c.Path, rng) + concreteQuery(c.Query, rng)
+			host := concreteHost(c.Host)
+			hdrs := append(concreteReqHeader(c.H1, rng, 1), concreteReqHeader(c.H2, rng, 2)...)
+			hdrs = append(hdrs, hpair{"X-Case", id})
+			body, chunked, pieces := concreteReqBody(bodyClass, rng, id)
+			var raw bytes.Buffer
+			fmt.Fprintf(&raw, "%s %s HTTP/1.1\r\nHost: %s\r\n", method, target, host)
+			for _, h := range hdrs {
+				fmt.Fprintf(&raw, "%s: %s\r\n", h[0], h[1])
+			}
+			if chunked {
+				raw.WriteString("Transfer-Encoding: chunked\r\n\r\n")
+				off := 0
+				for _, p := range pieces {
+					fmt.Fprintf(&raw, "%x\r\n", p)
+					raw.Write(body[off : off+p])
+					raw.WriteString("\r\n")
+					off += p
+				}
+				raw.WriteString("0\r\n\r\n")
+			} else if bodyClass != "none" {
+				fmt.Fprintf(&raw, "Content-Length: %d\r\n\r\n", len(body))
+				raw.Write(body)
+			} else {
+				raw.WriteString("\r\n")
+			}
+			resp := hx.RawRoundTrip(addr, raw.Bytes(), method, 60*time.Second)
+			be.mu.Lock()
+			sr := be.seen[id]
+			be.mu.Unlock()
+			in := map[string]interface{}{"method": method, "target": target, "host": host, "hdrs": canonPairs(hdrs), "body": digest(body)}
+			sig := fmt.Sprintf("req:%s/%s/%s/%s/%s/%s/%s", c.Method, c.Path, c.Query, c.Host, c.H1, c.H2, bodyClass)
+			if pass != "" {
+				sig += ":concurrent"
+			}
+			sig += cfgTag
+			muxInFront := cfg["banner"] == "on" || cfg["banner"] == "favicon" || (cfg["shim"] != "" && cfg["shim"] != "off")
+			canon := canonicalTarget(target)
+			if sr == nil {
+				// nothing arrived at the backend: the observation is "no request"
+				out := map[string]interface{}{"method": "NONE", "target": "", "host": "", "hdrs": []hpair{}, "body": digest(nil)}
+				hx.Emit("ReqCase", "case", id, "sig", sig, "in", in, "out", out, "client_status", resp.Status, "client_err", fmt.Sprint(resp.Err), "mux", muxInFront, "canon", canon)
+			} else {
+				out := map[string]interface{}{"method": sr.Method, "target": sr.Target, "host": sr.Host, "hdrs": sr.Hdrs, "body": digest(sr.Body)}
+				hx.Emit("ReqCase", "case", id, "sig", sig, "in", in, "out", out, "client_status", resp.Status, "mux", muxInFront, "canon", canon)
+			}
+			res.Case(sig, map[string]interface{}{"request_line": method + " " + headOf([]byte(target), 80), "classes": c})
 		}
-		resp := hx.RawRoundTrip(addr, raw.Bytes(), method, 60*time.Second)
-		be.mu.Lock()
-		sr := be.seen[id]
-		be.mu.Unlock()
-		in := map[string]interface{}{"method": method, "target": target, "host": host, "hdrs": canonPairs(hdrs), "body": digest(body)}
-		sig := fmt.Sprintf("req:%s/%s/%s/%s/%s/%s/%s", c.Method, c.Path, c.Query, c.Host, c.H1, c.H2, bodyClass)
-		if pass != "" {
-			sig += ":concurrent"
+		// (under another configuration: a subset in which every class of every field occurs, plus every twentieth case)
+		var sel []reqCase
+		covered := map[string]bool{}
+		for i, c := range cases.Req {
+			fresh := false
+			for _, k := range []string{"m:" + c.Method, "p:" + c.Path, "q:" + c.Query, "h:" + c.Host, "1:" + c.H1, "2:" + c.H2, "b:" + c.Body} {
+				if !covered[k] {
+					fresh = true
+				}
+			}
+			if cfgTag == "" || fresh || i%20 == ci%20 {
+				sel = append(sel, c)
+				for _, k := range []string{"m:" + c.Method, "p:" + c.Path, "q:" + c.Query, "h:" + c.Host, "1:" + c.H1, "2:" + c.H2, "b:" + c.Body} {
+					covered[k] = true
+				}
+			}
 		}
-		if sr == nil {
-			// nothing arrived at the backend: the observation is "no request"
-			out := map[string]interface{}{"method": "NONE", "target": "", "host": "", "hdrs": []hpair{}, "body": digest(nil)}
-			hx.Emit("ReqCase", "case", id, "sig", sig, "in", in, "out", out, "client_status", resp.Status, "client_err", fmt.Sprint(resp.Err))
-		} else {
-			out := map[string]interface{}{"method": sr.Method, "target": sr.Target, "host": sr.Host, "hdrs": sr.Hdrs, "body": digest(sr.Body)}
-			hx.Emit("ReqCase", "case", id, "sig", sig, "in", in, "out", out, "client_status", resp.Status)
+		for _, c := range sel {
+			one(c, "", rng)
 		}
-		res.Case(sig, map[string]interface{}{"request_line": method + " " + headOf([]byte(target), 80), "classes": c})
+		// the same cases again, 16 at a time: proxy and agent handle every request with shared handlers,
+		// transports and pools, so state that leaks from one request into another only shows under overlap
+		runConcurrently(len(sel), 16, func(i int) {
+			one(sel[i], "c", rand.New(rand.NewSource(int64(hx.Seed())*1000003+int64(i))))
+		})
+		if ex, code := agent.Exited(); ex {
+			res.Note("agent (%s) exited with %d: %s", cfg.Name(), code, hx.Tail(agent.Output(), 1500))
+		}
+		agent.Kill()
+		proxy.Kill()
 	}
-	for _, c := range cases.Req {
-		one(c, "", rng)
+}
+
+// canonicalTarget tells whether the path of a request target is in the form net/http's ServeMux leaves alone
+// (no empty, "." or ".." segments in the decoded path).
+func canonicalTarget(target string) bool {
+	u, err := url.ParseRequestURI(target)
+	if err != nil {
+		return true
 	}
-	// the same cases again, 16 at a time: proxy and agent handle every request with shared handlers,
-	// transports and pools, so state that leaks from one request into another only shows under overlap
-	runConcurrently(len(cases.Req), 16, func(i int) {
-		one(cases.Req[i], "c", rand.New(rand.NewSource(int64(hx.Seed())*1000003+int64(i))))
-	})
-	if ex, code := agent.Exited(); ex {
-		res.Note("agent exited with %d: %s", code, hx.Tail(agent.Output(), 1500))
+	p := u.Path
+	if p == "" || p[0] != '/' {
+		return false
 	}
+	cp := path.Clean(p)
+	if strings.HasSuffix(p, "/") && cp != "/" {
+		cp += "/"
+	}
+	return cp == p
 }
 
 // runConcurrently calls f(0..n-1) with at most `width` calls in flight.
@@ -837,100 +892,140 @@ func httpRespDriver(a *Args) {
 		suffix = "-race"
 		env = append(env, "GORACE=halt_on_error=1")
 	}
-	proxy, port, err := hx.StartProxy(hx.Bin("proxy"+suffix), env)
-	if err != nil {
-		res.Bad("proxy: %v", err)
-		return
-	}
-	defer proxy.Kill()
-	var agentArgs []string
-	if h2 {
-		agentArgs = []string{"--force-http2"}
-	}
-	agent, err := hx.StartAgent(hx.Bin("agent"+suffix), md, fmt.Sprintf("http://127.0.0.1:%d/", port), backendAddr, "agent", agentArgs, env)
-	if err != nil {
-		res.Bad("agent: %v", err)
-		return
-	}
-	defer agent.Kill()
-	addr := fmt.Sprintf("127.0.0.1:%d", port)
 	hx.Reset("httpresp"+a.Mode, "httpresp")
-	var dead int32
-	one := func(c respCase, pass string, rng *rand.Rand) {
-		if atomic.LoadInt32(&dead) != 0 {
+	// what reaches the client does not depend on the agent's settings that are neutral for C03
+	// (spec/AgentConfig.tla): the whole case set under the default configuration, a class-covering subset under each
+	// of the other configurations chosen for this run (plain mode only)
+	cfgs := []hx.AgentConfig{{}}
+	if a.Mode == "" {
+		cfgs = hx.AgentConfigs()
+		res.Extra["agent_configurations"] = len(cfgs)
+	}
+	for ci, cfg := range cfgs {
+		cfgTag := ""
+		if cfg.Name() != "default" {
+			cfgTag = "@" + cfg.Name()
+		}
+		proxy, port, err := hx.StartProxy(hx.Bin("proxy"+suffix), env)
+		if err != nil {
+			res.Bad("proxy: %v", err)
 			return
 		}
-		id := fmt.Sprintf("p%d%s", c.N, pass)
-		s := buildResp(c, rng, id)
-		mu.Lock()
-		scripts[id] = s
-		mu.Unlock()
+		var agentArgs []string
 		if h2 {
-			// HTTP/2 has no chunked / close-delimited framing: trailers are possible with any body
-			c.Framing = map[string]string{"length": "length", "chunked": "chunked", "close": "chunked"}[c.Framing]
-			if c.Interim == "100" {
-				c.Interim = "none" // net/http servers cannot emit a bare 100 themselves
+			agentArgs = []string{"--force-http2"}
+		}
+		agent, err := hx.StartAgentCfg(hx.Bin("agent"+suffix), md, fmt.Sprintf("http://127.0.0.1:%d/", port), backendAddr, "agent", cfg, agentArgs, env)
+		if err != nil {
+			proxy.Kill()
+			res.Bad("agent: %v", err)
+			return
+		}
+		addr := fmt.Sprintf("127.0.0.1:%d", port)
+		var dead int32
+		one := func(c respCase, pass string, rng *rand.Rand) {
+			if atomic.LoadInt32(&dead) != 0 {
+				return
 			}
-		}
-		sig := fmt.Sprintf("resp:%d/%s/%s/%s/%s/%s/d%d/u%d/%s", c.Status, c.Method, c.H1, c.H2, c.Framing, c.Body, c.Declared, c.Undeclared, c.Interim)
-		if h2 {
-			sig = "h2c-" + sig
-		}
-		if pass != "" {
-			sig += ":concurrent"
-		}
-		raw := fmt.Sprintf("%s /c03/%s HTTP/1.1\r\nHost: svc.example\r\nX-Case: %s\r\n", c.Method, id, id)
-		if c.Method == "POST" {
-			raw += "Content-Length: 3\r\n\r\nabc"
-		} else {
-			raw += "\r\n"
-		}
-		out := map[string]interface{}{"status": 0, "hdrs": []hpair{}, "body": digest(nil), "trailers": []hpair{}}
-		conn, err := net.DialTimeout("tcp", addr, 5*time.Second)
-		errText := ""
-		if err == nil {
-			conn.SetDeadline(time.Now().Add(60 * time.Second))
-			conn.Write([]byte(raw))
-			status, hdr, body, trailer, interim, rerr := readFinalResponse(conn, c.Method)
-			conn.Close()
-			if rerr != nil {
-				errText = rerr.Error()
+			id := fmt.Sprintf("p%d%s", c.N, pass)
+			if cfgTag != "" {
+				id = fmt.Sprintf("p%d%sk%d", c.N, pass, ci)
 			}
-			if hdr != nil {
-				out = map[string]interface{}{"status": status, "hdrs": headerPairs(hdr), "body": digest(body), "trailers": headerPairs(trailer), "interim": interim}
-				if interim == nil {
-					out["interim"] = []int{}
+			s := buildResp(c, rng, id)
+			mu.Lock()
+			scripts[id] = s
+			mu.Unlock()
+			if h2 {
+				// HTTP/2 has no chunked / close-delimited framing: trailers are possible with any body
+				c.Framing = map[string]string{"length": "length", "chunked": "chunked", "close": "chunked"}[c.Framing]
+				if c.Interim == "100" {
+					c.Interim = "none" // net/http servers cannot emit a bare 100 themselves
 				}
 			}
-		} else {
-			errText = err.Error()
-		}
-		hx.Emit("RespCase", "case", id, "sig", sig, "in", s.in, "out", out, "err", errText)
-		res.Case(sig, map[string]interface{}{"classes": c})
-		if ex, code := agent.Exited(); ex {
-			kind, inRepo, exc := hx.RaceReport(agent.Output())
-			res.Note("agent exited with %d after case %s (%s, inRepo=%v): %s", code, sig, kind, inRepo, headOf([]byte(exc), 1500))
-			if atomic.CompareAndSwapInt32(&dead, 0, 1) {
-				hx.Emit("ProcExit", "proc", "agent", "code", code, "report", kind, "sig", sig)
+			sig := fmt.Sprintf("resp:%d/%s/%s/%s/%s/%s/d%d/u%d/%s", c.Status, c.Method, c.H1, c.H2, c.Framing, c.Body, c.Declared, c.Undeclared, c.Interim)
+			if h2 {
+				sig = "h2c-" + sig
 			}
-			return
-		}
-		if ex, code := proxy.Exited(); ex {
-			kind, inRepo, exc := hx.RaceReport(proxy.Output())
-			res.Note("proxy exited with %d after case %s (%s, inRepo=%v): %s", code, sig, kind, inRepo, headOf([]byte(exc), 1500))
-			if atomic.CompareAndSwapInt32(&dead, 0, 1) {
-				hx.Emit("ProcExit", "proc", "proxy", "code", code, "report", kind, "sig", sig)
+			if pass != "" {
+				sig += ":concurrent"
 			}
-			return
+			sig += cfgTag
+			raw := fmt.Sprintf("%s /c03/%s HTTP/1.1\r\nHost: svc.example\r\nX-Case: %s\r\n", c.Method, id, id)
+			if c.Method == "POST" {
+				raw += "Content-Length: 3\r\n\r\nabc"
+			} else {
+				raw += "\r\n"
+			}
+			out := map[string]interface{}{"status": 0, "hdrs": []hpair{}, "body": digest(nil), "trailers": []hpair{}}
+			conn, err := net.DialTimeout("tcp", addr, 5*time.Second)
+			errText := ""
+			if err == nil {
+				conn.SetDeadline(time.Now().Add(60 * time.Second))
+				conn.Write([]byte(raw))
+				status, hdr, body, trailer, interim, rerr := readFinalResponse(conn, c.Method)
+				conn.Close()
+				if rerr != nil {
+					errText = rerr.Error()
+				}
+				if hdr != nil {
+					out = map[string]interface{}{"status": status, "hdrs": headerPairs(hdr), "body": digest(body), "trailers": headerPairs(trailer), "interim": interim}
+					if interim == nil {
+						out["interim"] = []int{}
+					}
+				}
+			} else {
+				errText = err.Error()
+			}
+			hx.Emit("RespCase", "case", id, "sig", sig, "in", s.in, "out", out, "err", errText)
+			res.Case(sig, map[string]interface{}{"classes": c})
+			if ex, code := agent.Exited(); ex {
+				kind, inRepo, exc := hx.RaceReport(agent.Output())
+				res.Note("agent exited with %d after case %s (%s, inRepo=%v): %s", code, sig, kind, inRepo, headOf([]byte(exc), 1500))
+				if atomic.CompareAndSwapInt32(&dead, 0, 1) {
+					hx.Emit("ProcExit", "proc", "agent", "code", code, "report", kind, "sig", sig)
+				}
+				return
+			}
+			if ex, code := proxy.Exited(); ex {
+				kind, inRepo, exc := hx.RaceReport(proxy.Output())
+				res.Note("proxy exited with %d after case %s (%s, inRepo=%v): %s", code, sig, kind, inRepo, headOf([]byte(exc), 1500))
+				if atomic.CompareAndSwapInt32(&dead, 0, 1) {
+					hx.Emit("ProcExit", "proc", "proxy", "code", code, "report", kind, "sig", sig)
+				}
+				return
+			}
+		}
+		var sel []respCase
+		covered := map[string]bool{}
+		for i, c := range cases.Resp {
+			keys := []string{fmt.Sprint("s:", c.Status), "m:" + c.Method, "1:" + c.H1, "2:" + c.H2, "f:" + c.Framing, "b:" + c.Body,
+				fmt.Sprint("d:", c.Declared), fmt.Sprint("u:", c.Undeclared), "i:" + c.Interim}
+			fresh := false
+			for _, k := range keys {
+				if !covered[k] {
+					fresh = true
+				}
+			}
+			if cfgTag == "" || fresh || i%20 == ci%20 {
+				sel = append(sel, c)
+				for _, k := range keys {
+					covered[k] = true
+				}
+			}
+		}
+		for _, c := range sel {
+			one(c, "", rng)
+		}
+		// the same cases again, 16 at a time (see httpReqDriver)
+		runConcurrently(len(sel), 16, func(i int) {
+			one(sel[i], "c", rand.New(rand.NewSource(int64(hx.Seed())*1000003+int64(i))))
+		})
+		agent.Kill()
+		proxy.Kill()
+		if atomic.LoadInt32(&dead) != 0 {
+			break
 		}
 	}
-	for _, c := range cases.Resp {
-		one(c, "", rng)
-	}
-	// the same cases again, 16 at a time (see httpReqDriver)
-	runConcurrently(len(cases.Resp), 16, func(i int) {
-		one(cases.Resp[i], "c", rand.New(rand.NewSource(int64(hx.Seed())*1000003+int64(i))))
-	})
 }
 
 // ---------------------------------------------------------------------------------------------
